@@ -11,7 +11,8 @@ EXTENDS TestRunner, Json
 
 CONSTANTS MaxLen, Deviations, EmitCase, EmitMod,
           Alphabet,     \* "A": the alphabet of round 1;  "B": stack/status/rti/indirect-jump alphabet of round 4
-          MCFuelC       \* instructions after which a run of the model counts as not terminating
+          MCFuelC,      \* instructions after which a run of the model counts as not terminating
+          NB            \* how many atoms of alphabet B are used (14: round 4; 17: with the top-of-memory assertions of round 5)
 MCFuel == MCFuelC
 
 N(n) == [k |-> "num", n |-> n, radix |-> "dec", lz |-> 0]
@@ -64,7 +65,7 @@ AtomsB == <<
   <<Imp("php")>>,                                                                       \*  4
   <<Imp("plp")>>,                                                                       \*  5
   <<Imp("sec")>>,                                                                       \*  6
-  <<Insn("cmp", "imm", N(1))>>,                                                         \*  7
+  <<Insn("lda", "imm", N(1)), Insn("sta", "dir", N(65535))>>,                           \*  7  (1 into the last byte of memory)
   <<[k |-> "label", name |-> "L", hasBody |-> FALSE, body |-> <<>>]>>,                  \*  8
   (* a vector at $00FF: low byte there, high byte at $0000 (page wrap), then jmp ($00ff) *)
   <<Insn("lda", "imm", LoB("L")), Insn("sta", "dir", N(255)), Insn("lda", "imm", HiB("L")), Insn("sta", "dir", N(0)),
@@ -74,10 +75,13 @@ AtomsB == <<
   <<Asrt(Bin("==", CpuA, N(52)))>>,                                                     \* 11  ($34 = pushed status with only I set)
   <<Asrt(Flag("carry"))>>,                                                              \* 12
   <<Asrt(Bin("==", Id(<<"cpu", "sp">>, "cpu.sp"), N(253)))>>,                           \* 13
-  <<Asrt(Not(Flag("zero")))>>                                                           \* 14
+  <<Asrt(Not(Flag("zero")))>>,                                                          \* 14
+  <<Asrt(Bin("==", [k |-> "ram16", e |-> N(65534)], N(256)))>>,                         \* 15  ($ffff holds 1, $fffe 0)
+  <<Asrt(Bin("==", [k |-> "ram", e |-> N(65535)], CpuA))>>,                             \* 16
+  <<Asrt(Bin("==", [k |-> "ram16", e |-> N(65535)], N(0)))>>                            \* 17  (cannot be evaluated: fails)
 >>
 
-NAtoms == IF Alphabet = "A" THEN Len(AtomsA) ELSE Len(AtomsB)
+NAtoms == IF Alphabet = "A" THEN Len(AtomsA) ELSE NB
 AtomSeq(a) == IF Alphabet = "A" THEN <<AtomsA[a]>> ELSE AtomsB[a]
 LabelAtom == IF Alphabet = "A" THEN 7 ELSE 8
 LabelUsers == IF Alphabet = "A" THEN {8, 9} ELSE {9, 10}
@@ -138,6 +142,8 @@ NoWrapJumpPass == ~(s.status = "passed" /\ Has(9) /\ s.n >= 6)
 NoRtiPass == ~(s.status = "passed" /\ Has(10) /\ s.n >= 7)
 NoBreakBitsSeen == ~(s.status = "passed" /\ Has(11))
 NoPlpFlags == ~(s.status = "passed" /\ Has(5) /\ Has(12))
+NoTopByteRead == ~(s.status = "passed" /\ Has(7) /\ Has(15) /\ Has(16))
+NoWordPastTop == ~(s.status = "failed" /\ s.aid \in DOMAIN shape /\ shape[s.aid] = 17)
 
 (* ---- cases for the implementation: one line per finished run *)
 Case == [prj |-> Project(shape), shape |-> shape, ideal |-> Ideal(T).v, aid |-> Ideal(T).aid, visit |-> Ideal(T).visit, steps |-> s.n]
